@@ -1,30 +1,39 @@
 """Run every check against every seeded change (in scratch worktrees, /repo untouched) and
-write notes/seed-matrix.json: which checks raise an alarm for which change."""
+write notes/seed-matrix.json: which checks raise an alarm for which change.  Seeds run in parallel."""
 import os
 import sys
 import json
 import subprocess
+from concurrent.futures import ThreadPoolExecutor
 
 ROOT = os.path.dirname(os.path.dirname(os.path.abspath(__file__)))
 CHECKS = ['C%02d' % i for i in range(1, 21)]
-out = {}
-seeds = sorted(os.listdir(os.path.join(ROOT, 'seeded')))
-if len(sys.argv) > 1:
-    seeds = sys.argv[1:]
-for name in seeds:
+
+
+def one(name):
     wt = '/tmp/seedmatrix-' + name
     subprocess.run('git -C /repo worktree remove --force %s' % wt, shell=True, capture_output=True)
     r = subprocess.run('git -C /repo worktree add -f %s HEAD && git -C %s apply %s' % (wt, wt, os.path.join(ROOT, 'seeded', name, 'patch.diff')),
                        shell=True, capture_output=True, text=True)
     assert r.returncode == 0, r.stderr
-    env = dict(os.environ, MOSROMGR_REPO=wt, VERIF_EVIDENCE_DIR='/tmp/seedmatrix-evidence', VERIF_REPLAY_DIR='/tmp/seedmatrix-replays')
+    env = dict(os.environ, MOSROMGR_REPO=wt, VERIF_EVIDENCE_DIR='/tmp/seedmatrix-evidence-' + name, VERIF_REPLAY_DIR='/tmp/seedmatrix-replays-' + name)
     row = {}
-    for c in CHECKS:
-        r = subprocess.run(['./check', c, '--tier', 'quick'], cwd=ROOT, capture_output=True, text=True, env=env)
-        lines = [l for l in r.stdout.split('\n') if l.startswith('VIOLATION')]
-        row[c] = 'no' if r.returncode == 0 else ('input' if lines and 'no-failing-input-found' not in lines[0] else 'no-input')
-    out[name] = row
+    try:
+        for c in CHECKS:
+            r = subprocess.run(['./check', c, '--tier', 'quick'], cwd=ROOT, capture_output=True, text=True, env=env)
+            lines = [l for l in r.stdout.split('\n') if l.startswith('VIOLATION')]
+            row[c] = 'no' if r.returncode == 0 else ('input' if lines and 'no-failing-input-found' not in lines[0] else 'no-input')
+    finally:
+        subprocess.run('git -C /repo worktree remove --force %s; git -C /repo worktree prune; rm -rf /tmp/seedmatrix-evidence-%s /tmp/seedmatrix-replays-%s' % (wt, name, name),
+                       shell=True, capture_output=True)
     print(name, ' '.join('%s:%s' % (c, v) for c, v in row.items() if v != 'no'), flush=True)
-    subprocess.run('git -C /repo worktree remove --force %s; git -C /repo worktree prune' % wt, shell=True, capture_output=True)
-json.dump(out, open(os.path.join(ROOT, 'notes', 'seed-matrix.json'), 'w'), indent=1)
-subprocess.run('rm -rf /tmp/seedmatrix-evidence /tmp/seedmatrix-replays', shell=True)
+    return name, row
+
+
+if __name__ == '__main__':
+    seeds = sorted(os.listdir(os.path.join(ROOT, 'seeded')))
+    if len(sys.argv) > 1:
+        seeds = sys.argv[1:]
+    with ThreadPoolExecutor(max_workers=5) as ex:
+        out = dict(ex.map(one, seeds))
+    json.dump(out, open(os.path.join(ROOT, 'notes', 'seed-matrix.json'), 'w'), indent=1, sort_keys=True)
